@@ -12,6 +12,19 @@
 //	                `z.SetZero()`, `z.setBigInt(v)` (PARAMETER setBigIntF), `res[i].SetBigInt(v)` on a local slice that is only ever
 //	                created by make (value update), `make([]Element, n)`, `bs, err := hash.ExpandMsgXmd(a, b, n)` (PARAMETER; the import
 //	                path of `hash` is checked)
+//
+// Pass "Set" (Gen/Imp/Set_<pkg>.lean: SetBigInt, SetString, SetInt64; C08) adds:
+//
+//	types           int64 (an Int in [-2^63, 2^63): `>> literal` = floor division, `^` = xorS64 (two's complement), `+ -` wrap
+//	                explicitly (wrapS64), `uint64(x)` = uintOfInt), results `(*Element, error)` of a method (the pointer is `some z` / `none`)
+//	statements      `_, ok := x.SetString(s, 0)` on a live scratch big.Int (PARAMETER bigSetString : value × ok; x is unspecified when !ok and
+//	                the text may not read it then: the uninitialised-read check does not apply, the value is whatever the parameter says),
+//	                `z.SetUint64(u)` (PARAMETER setUint64F), `z.Neg(z)` (PARAMETER negF), `z.M(v)` for a method M of the same target
+//	                translated before, `errors.New("literal" + s)` (a sentinel named by its message)
+//
+// Every package is translated on its own; Gen/Imp/H2F_generic.lean / Set_generic.lean are the text of ecc/bn254/fr with `Bits` and `modulus`
+// as parameters, and H2FAll.lean / SetAll.lean contain regenerated lemmas "translation of package P = generic text at P's constants"
+// (rfl / induction on the loop fuel), so that the property theorems are proved once for the generic text.
 package main
 
 import (
